@@ -71,10 +71,14 @@ class Update(Machine):
             else:
                 f = s.choice(files)
                 part = s.choice(PART_ADDRS) if s.chance(0.8) else s.below(1 << 32)
+                # the top of the 32-bit address space: the image or the record ends exactly at 2^32, one byte below it,
+                # or one byte beyond (outside the quantifier)
+                top = s.choice([None, None, None, None, "part", "info", "both"])
                 ops.append({"kind": "update", "i": i, "file": f[0], "info": s.choice(INFO_ADDRS) if s.chance(0.8) else s.below((1 << 32) - 256),
                             "part": part, "caches": s.choice([0, 1, 6, 6, 16, s.below(17)]),
                             "defaults": s.chance(0.15), "out": s.choice([outs[0], outs[0], outs[1], self.odd_stem(s, f"o{i}")]),
-                            "entry": s.choice(["cli", "cli", "lib"]), "dirty": s.choice(self.DIRTY_VARIANTS)})
+                            "entry": s.choice(["cli", "cli", "lib"]), "dirty": s.choice(self.DIRTY_VARIANTS),
+                            "top": top, "top_delta": s.choice([0, 0, 0, -1, 1])})
         return {"seed": seed, "swarm": swarm, "ops": ops, "faults": []}
 
     def place_faults(self, plan, counts, prop):
@@ -125,6 +129,13 @@ class Update(Machine):
         info, part, caches = op["info"], op["part"], op["caches"]
         if op["defaults"]:
             info, part, caches = 0x0E1EF340, 0x0E100000, 6
+        elif op.get("top"):
+            if op["top"] in ("part", "both"):
+                part = max(0, (1 << 32) - len(data) - op["top_delta"])
+            if op["top"] in ("info", "both"):
+                info = max(0, (1 << 32) - (16 + 8 * caches) - op["top_delta"])
+            if part + len(data) == 1 << 32 or info + 16 + 8 * caches == 1 << 32:
+                ex["ends_exactly_at_2_32"] = ex.get("ends_exactly_at_2_32", 0) + 1
         argv = ["image", "update", "--input-file", host.path("in/" + op["file"]), "--storage-output-file", host.path(s_rel),
                 "--dfu-partition-output-file", host.path(d_rel)]
         if not op["defaults"]:
@@ -163,7 +174,7 @@ class Update(Machine):
             else:
                 return []
         record_len = 16 + 8 * caches
-        in_range = part + len(data) <= (1 << 32) and info + record_len <= (1 << 32)
+        in_range = part < (1 << 32) and part + len(data) <= (1 << 32) and info + record_len <= (1 << 32)
         model["_abstract"] = ("update", min(len(data), 70000) // 4096, part & 0xFFFF > 0xFF00, caches, o.cls)
         if not in_range:
             ex["rejected_out_of_range"] += 1
